@@ -1,8 +1,10 @@
 (* Hand model (over Q) of geometric_intersection.self_intersections.  The turning-angle test and the
    left-vs-right all_intersections call are ORACLES, given as the streams of answers in call order (the order is
    fixed by the code: angle(nodes); recurse left; recurse right; all_intersections(left, right)).
-   What is modelled is the glue: rescaling, removal of the split point, stacking order.  NO proofs here. *)
+   What is modelled is the glue: rescaling, removal of the split point, stacking order, and (since the repair of finding
+   F19) the removal of repeated pairs with add_intersection's own notion of "repeated" (Model/Intersect.v).  NO proofs here. *)
 From Coq Require Import List ZArith QArith Bool.
+From BZ Require Import Model.Intersect.
 Import ListNotations.
 Open Scope Q_scope.
 
@@ -11,6 +13,8 @@ Record streams := { angles : list bool;            (* true = discrete turning an
                     isects : list (list pairQ) }.  (* results of all_intersections(left, right) *)
 Definition half := 1 # 2.
 Definition is_split (p : pairQ) : bool := Qeq_bool (fst p) half && Qeq_bool (snd p) half.
+(* `for s, t in result.T: add_intersection(s, t, unique_pairs)` *)
+Definition uniq (l : list pairQ) : list pairQ := fold_left (fun acc p => add_intersection (fst p) (snd p) acc) l [].
 
 (* fuel = recursion depth budget; None = out of fuel (RecursionError) or oracle stream exhausted *)
 Fixpoint self_isect (fuel : nat) (st : streams) : option (list pairQ * streams) :=
@@ -33,7 +37,7 @@ Fixpoint self_isect (fuel : nat) (st : streams) : option (list pairQ * streams) 
                       let ls := map (fun p => (half * fst p, half * snd p)) left_self in
                       let rs := map (fun p => (half + half * fst p, half + half * snd p)) right_self in
                       let cross := filter (fun p => negb (is_split p)) (map (fun p => (fst p * half, snd p * half + half)) lr) in
-                      Some (ls ++ cross ++ rs, {| angles := angles st2; isects := more |})
+                      Some (uniq (ls ++ cross ++ rs), {| angles := angles st2; isects := more |})
                   end
               end
           end
